@@ -8,6 +8,7 @@ import (
 	"hash/fnv"
 	"os"
 	"sort"
+	"strconv"
 	"strings"
 	"time"
 
@@ -20,15 +21,18 @@ func Register(s Suites) {
 	s.Add("C09", runC09)
 }
 
+// watchdog: wall-clock kill switch per case (PARSERS_WATCHDOG_S: calibration aid only)
+var watchdog = func() time.Duration {
+	if v, err := strconv.Atoi(os.Getenv("PARSERS_WATCHDOG_S")); err == nil && v > 0 {
+		return time.Duration(v) * time.Second
+	}
+	return 10 * time.Second
+}()
+
 const (
-	watchdog   = 10 * time.Second
 	asLimit    = 3 << 30 // RLIMIT_AS of every child (kill switch)
-	memBase    = 512 << 20
-	memPerS    = 64
 	maxDomainS = 1 << 22
 )
-
-func budgetFor(s uint64) uint64 { return memBase + memPerS*s }
 
 // inDomain: the C09 domain — input <= 64 KiB whose first frame header declares S <= 2^22 or nothing.
 func inDomain(c *Case) (s uint64, ok bool) {
@@ -416,9 +420,12 @@ type sigHit struct {
 }
 
 type runState struct {
-	hits     map[string]*sigHit
-	timeouts map[string]int // per entry|mut: timeouts so far (to stop paying 10 s per case of a hanging class)
-	nTimeout int
+	brake        *brake
+	doneKeys     map[string]bool // confirmation keys already confirmed (no further isolated re-runs for them)
+	confirmSpent time.Duration
+	hits         map[string]*sigHit
+	timeouts     map[string]int // per entry|mut: timeouts so far (to stop paying 10 s per case of a hanging class)
+	nTimeout     int
 }
 
 func caseInput(c *Case, r *Res) map[string]interface{} {
@@ -450,32 +457,6 @@ func c08Sig(c *Case, r *Res) (sig, what, note string) {
 		return "", "", "timeout(reported-by-C09)"
 	}
 	return "", "", ""
-}
-
-// c09Sig: the C09 oracle on one result (case already known to be in the domain).
-func c09Sig(c *Case, r *Res, s uint64) (sig, what string) {
-	switch {
-	case r.Status == "timeout" || r.Ms > watchdog.Milliseconds():
-		return c.Entry + ":timeout", fmt.Sprintf("no result within %v on a %d-byte input declaring S=%d", watchdog, len(c.Data), s)
-	case r.Status == "crash":
-		class, site, loc, msg := r.panicParts()
-		if class == "out-of-memory" {
-			return c.Entry + ":mem:fatal-oom:" + site, fmt.Sprintf("fatal out of memory under RLIMIT_AS=%d MiB (%s at %s), input %d bytes declaring S=%d", asLimit>>20, msg, loc, len(c.Data), s)
-		}
-		if class == "stack-overflow" {
-			return c.Entry + ":mem:fatal-stack-overflow:" + site, "stack overflow: " + msg + " at " + loc
-		}
-		return "", ""
-	case r.Peak > budgetFor(s):
-		site := "unknown"
-		loc := ""
-		if p := strings.SplitN(r.Over, "|", 2); len(p) == 2 {
-			site, loc = p[0], p[1]
-		}
-		return c.Entry + ":mem:heap-over-budget:" + site, fmt.Sprintf("peak heap growth %d MiB > budget %d MiB (512 MiB + 64*S, S=%d) on a %d-byte input; allocating at %s",
-			r.Peak>>20, budgetFor(s)>>20, s, len(c.Data), loc)
-	}
-	return "", ""
 }
 
 // thin keeps the estimated total decode time of the expensive cases (>= 3 ms) within
@@ -520,8 +501,11 @@ func shuffle(cs []Case, rng *Rand) {
 
 // execute runs the cases in waves (so that classes that keep timing out are abandoned
 // after a few 10 s penalties) and feeds each result to `on`.
-func execute(c *Ctx, cases []Case, st *runState, confirmTimeouts bool, on func(cs *Case, r *Res)) {
-	cfg := runCfg{Workers: c.Work, Timeout: watchdog, ASLimit: asLimit, NoHeap: !confirmTimeouts}
+func execute(c *Ctx, cases []Case, st *runState, confirm bool, on func(cs *Case, r *Res, kinds []string)) {
+	if st.brake == nil {
+		st.brake = newBrake()
+	}
+	cfg := runCfg{Workers: c.Work, Timeout: watchdog, ASLimit: asLimit, NoHeap: !confirm, Skip: st.brake.skip, Note: st.brake.note}
 	if os.Getenv("PARSERS_VERBOSE") != "" {
 		cnt := map[string]int{}
 		for i := range cases {
@@ -538,6 +522,28 @@ func execute(c *Ctx, cases []Case, st *runState, confirmTimeouts bool, on func(c
 			}
 		}
 		cases = keep
+	}
+	if v := os.Getenv("PARSERS_ONLY"); v != "" { // calibration aid: only the cases listed in a record file (entry, S, len, mutator, seed)
+		want := map[string]bool{}
+		if b, err := os.ReadFile(v); err == nil {
+			for _, l := range strings.Split(string(b), "\n") {
+				f := strings.Split(l, "\t")
+				if len(f) >= 10 {
+					want[f[0]+"|"+f[1]+"|"+f[2]+"|"+f[8]+"|"+f[9]] = true
+				}
+			}
+		}
+		var keep []Case
+		for i := range cases {
+			s, _ := inDomain(&cases[i])
+			if want[fmt.Sprintf("%s|%d|%d|%s|%s", cases[i].Entry, s, len(cases[i].Data), cases[i].Mut, cases[i].Seed)] {
+				keep = append(keep, cases[i])
+			}
+		}
+		cases = keep
+		if w, err := strconv.Atoi(os.Getenv("PARSERS_ISO_WORKERS")); err == nil && w > 0 {
+			cfg.Workers = w
+		}
 	}
 	if v := os.Getenv("PARSERS_FAM"); v != "" { // development aid
 		var keep []Case
@@ -557,9 +563,23 @@ func execute(c *Ctx, cases []Case, st *runState, confirmTimeouts bool, on func(c
 	}
 	waves := 5
 	per := len(cases)/waves + 1
-	for lo := 0; lo < len(cases); lo += per {
+	var deferred []Case // paused by the brake in the previous wave
+	extra := 0
+	for lo := 0; lo < len(cases) || len(deferred) > 0; lo += per {
 		hi := min(lo+per, len(cases))
-		var batch []Case
+		if lo >= len(cases) {
+			lo, hi = len(cases), len(cases)
+			extra++
+			if extra > 3 {
+				for i := range deferred {
+					st.brake.drop(&deferred[i])
+					c.R.Case("", false, "skipped.brake")
+				}
+				break
+			}
+		}
+		batch := deferred
+		deferred = nil
 		for i := lo; i < hi; i++ {
 			k := cases[i].Entry + "|" + cases[i].Mut + "|" + cases[i].Seed
 			if st.timeouts[k] >= 1 || st.timeouts[cases[i].Entry+"|"+cases[i].Mut] >= 2 || st.timeouts[cases[i].Fam+"|"+cases[i].Mut] >= 5 {
@@ -569,64 +589,13 @@ func execute(c *Ctx, cases []Case, st *runState, confirmTimeouts bool, on func(c
 			batch = append(batch, cases[i])
 		}
 		res := RunCases(cfg, batch)
-		// a timeout must reproduce IN ISOLATION (one child, nothing else of this run active) before it counts
+		recordCalib(batch, res)
+		kinds := make([][]string, len(batch))
 		var again []int
-		for i := range batch {
-			if res[i].Status == "timeout" || res[i].Ms > watchdog.Milliseconds() {
-				again = append(again, i)
-			}
+		if confirm {
+			again = confirmWave(c, st, batch, res, kinds)
 		}
-		if len(again) > 0 && confirmTimeouts {
-			cs2 := make([]Case, len(again))
-			for k, i := range again {
-				cs2[k] = batch[i]
-			}
-			// signatures are per entry point: every entry point with a timeout gets up to two isolated
-			// confirmations per wave (smallest inputs first); further timeouts of the same entry point
-			// in this wave are not re-run (each costs up to 10 s, one at a time)
-			sort.SliceStable(again, func(a, b int) bool { return len(batch[again[a]].Data) < len(batch[again[b]].Data) })
-			perEntry := map[string]int{}
-			var pick []int
-			for _, i := range again {
-				if perEntry[batch[i].Entry] < 2 {
-					perEntry[batch[i].Entry]++
-					pick = append(pick, i)
-				} else {
-					res[i] = Res{Status: "err", Detail: "timeout, not re-run (another case of this entry point is being confirmed)"}
-				}
-			}
-			again = pick
-			cs2 = cs2[:0]
-			for _, i := range again {
-				cs2 = append(cs2, batch[i])
-			}
-			r2 := RunCases(runCfg{Workers: 1, Timeout: watchdog, ASLimit: asLimit}, cs2)
-			for k, i := range again {
-				if k < len(r2) {
-					res[i] = r2[k]
-					// the isolated child is fresh: its CPU time is the CPU time of this one case. A wall-clock
-					// timeout during which the decoder did not even consume the watchdog's worth of CPU time is the machine's doing
-					// (other jobs), not the decoder's: inconclusive, never reported.
-					if r2[k].Status != "timeout" && r2[k].Ms > watchdog.Milliseconds() && r2[k].CPUms < watchdog.Milliseconds() {
-						// finished, slower than the watchdog in wall time but not in CPU time: overloaded machine
-						res[i].Ms = watchdog.Milliseconds()
-						c.R.Case("", false, "timeout.inconclusive-overloaded-machine")
-					}
-					if r2[k].Status == "timeout" {
-						var cpu int64 = -1
-						if j := strings.Index(r2[k].Detail, "cpu="); j >= 0 {
-							fmt.Sscanf(r2[k].Detail[j+4:], "%d", &cpu)
-						}
-						if cpu >= 0 && cpu < watchdog.Milliseconds() {
-							res[i] = Res{Status: "err", Detail: fmt.Sprintf("timeout not confirmed: only %d ms CPU in %v wall (machine overloaded)", cpu, watchdog)}
-							c.R.Case("", false, "timeout.inconclusive-overloaded-machine")
-						}
-					}
-				} else {
-					res[i] = Res{Status: "err", Detail: "timeout under load, not re-run (cap)"}
-				}
-			}
-		}
+		st.brake.waveEnd(confirm)
 		if os.Getenv("PARSERS_VERBOSE") != "" {
 			fmt.Fprintf(os.Stderr, "[parsers] wave %d..%d of %d done, %d timeouts re-run, %d signatures so far\n", lo, hi, len(cases), len(again), len(st.hits))
 		}
@@ -647,9 +616,123 @@ func execute(c *Ctx, cases []Case, st *runState, confirmTimeouts bool, on func(c
 				st.timeouts[batch[i].Fam+"|"+batch[i].Mut]++
 				st.nTimeout++
 			}
-			on(&batch[i], &res[i])
+			if res[i].Status == "skipped" {
+				if res[i].Detail == "paused" {
+					deferred = append(deferred, batch[i])
+				} else {
+					c.R.Case("", false, "skipped.brake")
+				}
+				continue
+			}
+			on(&batch[i], &res[i], kinds[i])
 		}
 	}
+}
+
+// isolatedCfg: one child; a case is not given up before it had its CPU budget (or 180 s of wall time).
+func isolatedCfg() runCfg {
+	return runCfg{Workers: 1, Timeout: watchdog, ASLimit: asLimit, WallCap: 180 * time.Second,
+		CPUNeed: func(c *Case) int64 { s, _ := inDomain(c); return cpuBudgetUs(c, s) }}
+}
+
+// confirmWave: every budget / watchdog candidate of the wave must reproduce IN ISOLATION (one child,
+// nothing else of this run active, CPU-time based) before it counts. Per confirmation key (entry
+// point and kind; heap: and allocation site) the smallest candidate is re-run, a second one when the
+// first did not reproduce. kinds[i] receives the confirmed kinds; the result of a confirmed case
+// is replaced by the isolated one. Returns the indices re-run.
+func confirmWave(c *Ctx, st *runState, batch []Case, res []Res, kinds [][]string) []int {
+	type cand struct {
+		i         int
+		kind, key string
+	}
+	var cands []cand
+	for i := range batch {
+		s, _ := inDomain(&batch[i])
+		for _, k := range c09Kinds(&batch[i], &res[i], s) {
+			if k == kOOM || k == kStack { // the address-space limit is per process: deterministic, no re-run needed
+				kinds[i] = append(kinds[i], k)
+				continue
+			}
+			cands = append(cands, cand{i, k, confirmKey(&batch[i], &res[i], k)})
+		}
+	}
+	if len(cands) == 0 {
+		return nil
+	}
+	// cheapest confirmation first: smallest CPU budget, then shortest input
+	bud := func(i int) int64 { s, _ := inDomain(&batch[i]); return cpuBudgetUs(&batch[i], s) }
+	sort.SliceStable(cands, func(a, b int) bool {
+		ba, bb := bud(cands[a].i), bud(cands[b].i)
+		if ba != bb {
+			return ba < bb
+		}
+		return len(batch[cands[a].i].Data) < len(batch[cands[b].i].Data)
+	})
+	limit := 240 * time.Second
+	if c.Thor {
+		limit = 1200 * time.Second
+	}
+	tried := map[string]int{}
+	isolated := map[int]*Res{}
+	var rerun []int
+	for round := 0; round < 2; round++ {
+		var pick []cand
+		for _, cd := range cands {
+			if st.doneKeys[cd.key] || tried[cd.key] != round {
+				continue
+			}
+			if st.confirmSpent > limit {
+				c.R.Case("", false, "budget.candidate-not-rerun.confirmation-time-exhausted")
+				continue
+			}
+			tried[cd.key] = round + 1
+			pick = append(pick, cd)
+		}
+		var cs2 []Case
+		var idx []int
+		for _, cd := range pick {
+			if isolated[cd.i] == nil {
+				isolated[cd.i] = &Res{}
+				cs2 = append(cs2, batch[cd.i])
+				idx = append(idx, cd.i)
+			}
+		}
+		t0 := time.Now()
+		r2 := RunCases(isolatedCfg(), cs2)
+		st.confirmSpent += time.Since(t0)
+		for k, i := range idx {
+			*isolated[i] = r2[k]
+			rerun = append(rerun, i)
+		}
+		for _, cd := range pick {
+			s, _ := inDomain(&batch[cd.i])
+			r := isolated[cd.i]
+			if r.Status == "" {
+				continue
+			}
+			if k2 := confirmedKind(&batch[cd.i], r, s, cd.kind); k2 != "" {
+				st.doneKeys[cd.key] = true
+				kinds[cd.i] = append(kinds[cd.i], k2)
+				if r.Over == "" {
+					r.Over = res[cd.i].Over
+				}
+				sig, _ := c09SigOf(&batch[cd.i], r, s, k2)
+				st.brake.confirm(sig, batch[cd.i].Entry)
+			} else {
+				c.R.Case("", false, "budget.candidate-not-reproduced-in-isolation."+cd.kind)
+				if os.Getenv("PARSERS_VERBOSE") != "" {
+					fmt.Fprintf(os.Stderr, "[parsers] not reproduced: %s %s %s S=%d len=%d wave: %s cpu=%dus peak=%d  isolated: %s cpu=%dus peak=%d\n", cd.kind, batch[cd.i].Entry, batch[cd.i].Mut, s, len(batch[cd.i].Data),
+						res[cd.i].Status, res[cd.i].CPUus, res[cd.i].Peak, r.Status, r.CPUus, r.Peak)
+				}
+			}
+		}
+	}
+	for i, r := range isolated {
+		if len(kinds[i]) > 0 && r.Status != "" {
+			res[i] = *r
+		}
+	}
+	return rerun
 }
 
 func (st *runState) hit(sig string, cs *Case, r *Res) {
@@ -915,11 +998,11 @@ func runC08(c *Ctx) {
 	if len(missing) > 0 {
 		c.R.Fail("oracle", "c08", "registry:missing-codec", fmt.Sprintf("codecs not registered: %v", missing), nil)
 	}
-	st := &runState{hits: map[string]*sigHit{}, timeouts: map[string]int{}}
+	st := &runState{hits: map[string]*sigHit{}, timeouts: map[string]int{}, doneKeys: map[string]bool{}}
 	whatOf := map[string]string{}
 	notes := map[string]int{}
 	home0 := map[string]string{}
-	on := func(cs *Case, r *Res) {
+	on := func(cs *Case, r *Res, _ []string) {
 		record(c, cs, r)
 		c.R.Oracle("c08." + cs.Entry)
 		if cs.Mut == "valid" && home0[cs.Seed] == cs.Entry && r.Status != "ok" {
@@ -1005,6 +1088,9 @@ func runC08(c *Ctx) {
 		c.R.Note("%s: %d cases", k, v)
 	}
 	writeFindings("C08", c.Tier, hs, whatOf)
+	if bs, n := st.brake.summary(); n > 0 {
+		c.R.Note("C08 brake: %s", bs)
+	}
 	c.R.Note("C08 search: %d cases, %d timeouts, %d distinct failure signatures, %.1fs", len(cases), st.nTimeout, len(hs), time.Since(t0).Seconds())
 }
 
@@ -1133,12 +1219,14 @@ func runC09(c *Ctx) {
 		"(layers 65535, levels 32, 1x1 precincts/tiles, Csiz 16384), havoc, random after SOI/SOC, arbitrary RLE FrameInfo. " +
 		"non-trivial = a mutated input of >= 2 bytes inside the domain"
 	c.R.Note("entry table: %s", entryTableNote())
-	st := &runState{hits: map[string]*sigHit{}, timeouts: map[string]int{}}
+	st := &runState{hits: map[string]*sigHit{}, timeouts: map[string]int{}, doneKeys: map[string]bool{}}
 	whatOf := map[string]string{}
 	var maxPeak uint64
 	var maxMs int64
 	var maxPeakAt, maxMsAt string
-	on := func(cs *Case, r *Res) {
+	var maxCPU int64
+	var maxCPUAt string
+	on := func(cs *Case, r *Res, kinds []string) {
 		s, _ := inDomain(cs)
 		record(c, cs, r)
 		c.R.Oracle("c09." + cs.Entry)
@@ -1148,8 +1236,11 @@ func runC09(c *Ctx) {
 		if r.Ms > maxMs && r.Status != "timeout" {
 			maxMs, maxMsAt = r.Ms, cs.Entry+" "+cs.Mut+" "+cs.Seed
 		}
-		sig, what := c09Sig(cs, r, s)
-		if sig != "" {
+		if r.CPUus > maxCPU && r.Status != "timeout" {
+			maxCPU, maxCPUAt = r.CPUus, cs.Entry+" "+cs.Mut+" "+cs.Seed
+		}
+		for _, k := range kinds { // confirmed in isolation (execute / confirmWave)
+			sig, what := c09SigOf(cs, r, s, k)
 			st.hit(sig, cs, r)
 			whatOf[sig] = what
 		}
@@ -1287,7 +1378,7 @@ func runC09(c *Ctx) {
 				outside++
 				continue
 			}
-			all[i].Budget = budgetFor(s)
+			all[i].Budget = heapBudget(&all[i], s)
 			cases = append(cases, all[i])
 		}
 		shuffle(cases, c.Rng.Fork())
@@ -1302,36 +1393,56 @@ func runC09(c *Ctx) {
 	for i := range cases {
 		if cases[i].Budget == 0 {
 			s, _ := inDomain(&cases[i])
-			cases[i].Budget = budgetFor(s)
+			cases[i].Budget = heapBudget(&cases[i], s)
 		}
 	}
 	execute(c, cases, st, true, on)
+	remeasureHeavy()
 	dumpCost()
 	hs := sortedHits(st)
-	doneRoot := map[string]bool{}
 	for _, h := range hs {
-		k := rootOf(h.sig)
-		budget := 64
-		if !doneRoot[k] {
-			budget = 400
-			doneRoot[k] = true
+		if !strings.Contains(h.sig, ":heap-budget:") && !strings.Contains(h.sig, ":mem:") {
+			continue // time signatures are reported exactly as confirmed in isolation (CPU time under parallel load is not comparable)
 		}
-		if strings.HasSuffix(h.sig, ":timeout") {
-			continue // reported exactly as confirmed in isolation; shrinking under parallel load could lose that
-		}
+		// memory signatures: shorten the input in parallel, then require the shortened input to reproduce in isolation
+		orig, origR := h.c, h.r
 		shrink(c, h, func(cs *Case, r *Res) string {
 			s, ok := inDomain(cs)
 			if !ok {
 				return ""
 			}
-			sg, _ := c09Sig(cs, r, s)
-			return sg
-		}, budget)
+			for _, k := range c09Kinds(cs, r, s) {
+				if k == kHeap || k == kOOM || k == kStack {
+					if sg, _ := c09SigOf(cs, r, s, k); sg == h.sig {
+						return sg
+					}
+				}
+			}
+			return ""
+		}, 64)
+		if len(h.c.Data) < len(orig.Data) {
+			s, _ := inDomain(&h.c)
+			h.c.Budget = heapBudget(&h.c, s)
+			r2 := RunCases(isolatedCfg(), []Case{h.c})
+			ok := false
+			for _, k := range c09Kinds(&h.c, &r2[0], s) {
+				if sg, what := c09SigOf(&h.c, &r2[0], s, k); sg == h.sig {
+					ok, h.r = true, r2[0]
+					whatOf[h.sig] = what
+				}
+			}
+			if !ok {
+				h.c, h.r = orig, origR
+			}
+		}
 	}
 	for _, h := range hs {
 		c.R.Fail("oracle", "c09", h.sig, fmt.Sprintf("%s (%d cases with this signature)", whatOf[h.sig], h.count), caseInput(&h.c, &h.r))
 	}
 	writeFindings("C09", c.Tier, hs, whatOf)
-	c.R.Note("C09 search: %d cases in the domain, %d timeouts, %d distinct failure signatures, max peak heap growth %d MiB (%s), slowest completed case %d ms (%s), %.1fs",
-		len(cases), st.nTimeout, len(hs), maxPeak>>20, maxPeakAt, maxMs, maxMsAt, time.Since(t0).Seconds())
+	if bs, n := st.brake.summary(); n > 0 {
+		c.R.Note("C09 brake: %s", bs)
+	}
+	c.R.Note("C09 search: %d cases in the domain, %d watchdog kills (before confirmation), %d distinct failure signatures, max peak heap growth %d KiB (%s), most CPU time of a completed case %d ms (%s), slowest completed case %d ms wall (%s), %.0f s spent on isolated confirmations, %.1fs",
+		len(cases), st.nTimeout, len(hs), maxPeak>>10, maxPeakAt, maxCPU/1000, maxCPUAt, maxMs, maxMsAt, st.confirmSpent.Seconds(), time.Since(t0).Seconds())
 }
